@@ -43,6 +43,7 @@ CONSTANTS NLoops,     \* number of sub-loops
           MaxRegs,    \* Engine.Register calls
           ReusePort,  \* TRUE: every loop owns a listener, no main reactor
           Ticker,     \* WithTicker(true)
+          LB,         \* "rr": the acceptor hands connections to the sub-loops cyclically (Round-Robin); "any": some registered loop
           Sources     \* who may ask for the shutdown: subset of {"stop","open","traffic","close","tick","fail","boot"}
 
 Loops == 1..NLoops
@@ -56,8 +57,9 @@ TickLoop == IF ReusePort THEN 1 ELSE Main
 Exit == <<"exit">>
 
 VARIABLES ctx, backlog, made, lnOpen, cst, loopOf, q, lst, tk, tickShut,
-          stop, trig, inShutdown, returned, nShut, regres
-vars == <<ctx, backlog, made, lnOpen, cst, loopOf, q, lst, tk, tickShut, stop, trig, inShutdown, returned, nShut, regres>>
+          stop, trig, inShutdown, returned, nShut, regres,
+          rr          \* the Round-Robin balancer's cursor (the loop the next accepted connection goes to)
+vars == <<ctx, backlog, made, lnOpen, cst, loopOf, q, lst, tk, tickShut, stop, trig, inShutdown, returned, nShut, regres, rr>>
 
 TypeOK ==
     /\ ctx \in BOOLEAN /\ lnOpen \in BOOLEAN /\ inShutdown \in BOOLEAN /\ returned \in BOOLEAN /\ tickShut \in BOOLEAN
@@ -69,6 +71,7 @@ TypeOK ==
     /\ stop \in {"unborn", "idle", "onshutdown", "trigger", "wait", "closeloops", "flag", "done"}
     /\ trig \in 1..(NLoops + 1) /\ nShut \in 0..2
     /\ regres \in [Regs -> {"none", "pending", "delivered"}]
+    /\ rr \in Loops
 
 Booted ==
     /\ ctx = FALSE /\ backlog = [a \in Acceptors |-> 0] /\ made = 0 /\ lnOpen = TRUE
@@ -76,7 +79,7 @@ Booted ==
     /\ q = [i \in AllLoops |-> <<>>] /\ lst = [i \in AllLoops |-> "polling"]
     /\ tk = (IF Ticker THEN "sleep" ELSE "off") /\ tickShut = FALSE
     /\ stop = "idle" /\ trig = 1 /\ inShutdown = FALSE /\ returned = FALSE /\ nShut = 0
-    /\ regres = [r \in Regs |-> "none"]
+    /\ regres = [r \in Regs |-> "none"] /\ rr = 1
 \* OnBoot returned Shutdown: Run returns nil, nothing was started and nothing will be
 BootStopped ==
     /\ "boot" \in Sources
@@ -85,7 +88,7 @@ BootStopped ==
     /\ q = [i \in AllLoops |-> <<>>] /\ lst = [i \in AllLoops |-> "unborn"]
     /\ tk = "off" /\ tickShut = FALSE
     /\ stop = "unborn" /\ trig = 1 /\ inShutdown = FALSE /\ returned = TRUE /\ nShut = 0
-    /\ regres = [r \in Regs |-> "none"]
+    /\ regres = [r \in Regs |-> "none"] /\ rr = 1
 Init == Booted \/ BootStopped
 
 OpenOn(i) == {c \in Conns : cst[c] = "open" /\ loopOf[c] = i}
@@ -96,7 +99,7 @@ Actions(src) == {"none", "close"} \cup (IF src \in Sources THEN {"shutdown"} ELS
 Connect(a) ==
     /\ lnOpen /\ made < MaxConns /\ a \in Acceptors
     /\ backlog' = [backlog EXCEPT ![a] = @ + 1] /\ made' = made + 1
-    /\ UNCHANGED <<ctx, lnOpen, cst, loopOf, q, lst, tk, tickShut, stop, trig, inShutdown, returned, nShut, regres>>
+    /\ UNCHANGED <<ctx, lnOpen, cst, loopOf, q, lst, tk, tickShut, stop, trig, inShutdown, returned, nShut, regres, rr>>
 
 \* the next unused connection id (ids are handed out in accept order)
 NextConn == IF \E c \in AcceptedIds : cst[c] = "none" THEN CHOOSE c \in AcceptedIds : cst[c] = "none" /\ \A d \in AcceptedIds : d < c => cst[d] # "none" ELSE 0
@@ -109,16 +112,18 @@ Opened(i, c, a) ==
 \* main reactor: accept0 accepts and picks the loop ...
 Accept(c, i) ==
     /\ ~ReusePort /\ lst[Main] = "polling" /\ backlog[Main] > 0 /\ c = NextConn /\ c # 0 /\ i \in Loops
+    /\ (LB = "rr" => i = rr)
     /\ \A d \in AcceptedIds : cst[d] # "accepted"
     /\ backlog' = [backlog EXCEPT ![Main] = @ - 1]
     /\ cst' = [cst EXCEPT ![c] = "accepted"] /\ loopOf' = [loopOf EXCEPT ![c] = i]
+    /\ rr' = (IF LB = "rr" THEN (rr % NLoops) + 1 ELSE rr)
     /\ UNCHANGED <<ctx, made, lnOpen, q, lst, tk, tickShut, stop, trig, inShutdown, returned, nShut, regres>>
 \* ... and hands the socket to it, whatever the state of that loop
 Enqueue(c) ==
     /\ c \in AcceptedIds /\ cst[c] = "accepted"
     /\ cst' = [cst EXCEPT ![c] = "queued"]
     /\ q' = [q EXCEPT ![loopOf[c]] = Append(@, <<"reg", c>>)]
-    /\ UNCHANGED <<ctx, backlog, made, lnOpen, loopOf, lst, tk, tickShut, stop, trig, inShutdown, returned, nShut, regres>>
+    /\ UNCHANGED <<ctx, backlog, made, lnOpen, loopOf, lst, tk, tickShut, stop, trig, inShutdown, returned, nShut, regres, rr>>
 
 \* reuse-port mode: the loop accepts and registers in one go
 AcceptOwn(i, c, a) ==
@@ -126,7 +131,7 @@ AcceptOwn(i, c, a) ==
     /\ backlog' = [backlog EXCEPT ![i] = @ - 1]
     /\ loopOf' = [loopOf EXCEPT ![c] = i]
     /\ Opened(i, c, a)
-    /\ UNCHANGED <<ctx, made, lnOpen, q, tk, tickShut, stop, trig, inShutdown, returned, nShut, regres>>
+    /\ UNCHANGED <<ctx, made, lnOpen, q, tk, tickShut, stop, trig, inShutdown, returned, nShut, regres, rr>>
 
 \* a sub-loop runs the head of its queue
 RunReg(i, c, a) ==
@@ -135,7 +140,7 @@ RunReg(i, c, a) ==
     /\ q' = [q EXCEPT ![i] = Tail(@)]
     /\ Opened(i, c, a)
     /\ regres' = IF Head(q[i])[1] = "regcb" THEN [regres EXCEPT ![c] = "delivered"] ELSE regres
-    /\ UNCHANGED <<ctx, backlog, made, lnOpen, loopOf, tk, tickShut, stop, trig, inShutdown, returned, nShut>>
+    /\ UNCHANGED <<ctx, backlog, made, lnOpen, loopOf, tk, tickShut, stop, trig, inShutdown, returned, nShut, rr>>
 RunExit(i) ==
     /\ i \in AllLoops /\ lst[i] = "polling" /\ q[i] # <<>> /\ Head(q[i]) = Exit
     \* the main reactor is not inside accept0 when it runs its tasks
@@ -143,83 +148,84 @@ RunExit(i) ==
     /\ q' = [q EXCEPT ![i] = Tail(@)]
     /\ lst' = [lst EXCEPT ![i] = IF i = Main /\ ~ReusePort THEN "exited" ELSE "closing"]
     /\ ctx' = (IF i = Main /\ ~ReusePort THEN TRUE ELSE ctx)
-    /\ UNCHANGED <<backlog, made, lnOpen, cst, loopOf, tk, tickShut, stop, trig, inShutdown, returned, nShut, regres>>
+    /\ UNCHANGED <<backlog, made, lnOpen, cst, loopOf, tk, tickShut, stop, trig, inShutdown, returned, nShut, regres, rr>>
 
 \* callbacks on an open connection
 Traffic(i, c, a) ==
     /\ i \in Loops /\ lst[i] = "polling" /\ c \in OpenOn(i) /\ a \in Actions("traffic") \ {"none"}
     /\ cst' = [cst EXCEPT ![c] = IF a = "close" THEN "closed" ELSE @]
     /\ lst' = [lst EXCEPT ![i] = IF a = "shutdown" THEN "closing" ELSE @]
-    /\ UNCHANGED <<ctx, backlog, made, lnOpen, loopOf, q, tk, tickShut, stop, trig, inShutdown, returned, nShut, regres>>
+    /\ UNCHANGED <<ctx, backlog, made, lnOpen, loopOf, q, tk, tickShut, stop, trig, inShutdown, returned, nShut, regres, rr>>
 PeerClose(i, c, a) ==
     /\ i \in Loops /\ lst[i] = "polling" /\ c \in OpenOn(i) /\ a \in Actions("close") \ {"close"}
     /\ cst' = [cst EXCEPT ![c] = "closed"]
     /\ lst' = [lst EXCEPT ![i] = IF a = "shutdown" THEN "closing" ELSE @]
-    /\ UNCHANGED <<ctx, backlog, made, lnOpen, loopOf, q, tk, tickShut, stop, trig, inShutdown, returned, nShut, regres>>
+    /\ UNCHANGED <<ctx, backlog, made, lnOpen, loopOf, q, tk, tickShut, stop, trig, inShutdown, returned, nShut, regres, rr>>
 LoopFail(i) ==
     /\ "fail" \in Sources /\ i \in AllLoops /\ lst[i] = "polling"
     /\ i = Main => \A d \in AcceptedIds : cst[d] # "accepted"
     /\ lst' = [lst EXCEPT ![i] = IF i = Main /\ ~ReusePort THEN "exited" ELSE "closing"]
     /\ ctx' = (IF i = Main /\ ~ReusePort THEN TRUE ELSE ctx)
-    /\ UNCHANGED <<backlog, made, lnOpen, cst, loopOf, q, tk, tickShut, stop, trig, inShutdown, returned, nShut, regres>>
+    /\ UNCHANGED <<backlog, made, lnOpen, cst, loopOf, q, tk, tickShut, stop, trig, inShutdown, returned, nShut, regres, rr>>
 
 \* the loop has left Polling: closeConns, then engine.shutdown
 CloseOne(i, c) ==
     /\ i \in Loops /\ lst[i] = "closing" /\ c \in OpenOn(i)
     /\ cst' = [cst EXCEPT ![c] = "closed"]
-    /\ UNCHANGED <<ctx, backlog, made, lnOpen, loopOf, q, lst, tk, tickShut, stop, trig, inShutdown, returned, nShut, regres>>
+    /\ UNCHANGED <<ctx, backlog, made, lnOpen, loopOf, q, lst, tk, tickShut, stop, trig, inShutdown, returned, nShut, regres, rr>>
 LoopDone(i) ==
     /\ i \in Loops /\ lst[i] = "closing" /\ OpenOn(i) = {}
     /\ lst' = [lst EXCEPT ![i] = "exited"] /\ ctx' = TRUE
-    /\ UNCHANGED <<backlog, made, lnOpen, cst, loopOf, q, tk, tickShut, stop, trig, inShutdown, returned, nShut, regres>>
+    /\ UNCHANGED <<backlog, made, lnOpen, cst, loopOf, q, tk, tickShut, stop, trig, inShutdown, returned, nShut, regres, rr>>
 
 \* Engine.Stop / gnet.Stop from anywhere
 StopCall ==
     /\ "stop" \in Sources /\ stop = "idle" /\ ~ctx
     /\ ctx' = TRUE
-    /\ UNCHANGED <<backlog, made, lnOpen, cst, loopOf, q, lst, tk, tickShut, stop, trig, inShutdown, returned, nShut, regres>>
+    /\ UNCHANGED <<backlog, made, lnOpen, cst, loopOf, q, lst, tk, tickShut, stop, trig, inShutdown, returned, nShut, regres, rr>>
 
 \* engine.stop
 S1 == /\ stop = "idle" /\ ctx /\ stop' = "onshutdown"
-      /\ UNCHANGED <<ctx, backlog, made, lnOpen, cst, loopOf, q, lst, tk, tickShut, trig, inShutdown, returned, nShut, regres>>
+      /\ UNCHANGED <<ctx, backlog, made, lnOpen, cst, loopOf, q, lst, tk, tickShut, trig, inShutdown, returned, nShut, regres, rr>>
 S2 == /\ stop = "onshutdown" /\ stop' = "trigger" /\ nShut' = nShut + 1
-      /\ UNCHANGED <<ctx, backlog, made, lnOpen, cst, loopOf, q, lst, tk, tickShut, trig, inShutdown, returned, regres>>
+      /\ UNCHANGED <<ctx, backlog, made, lnOpen, cst, loopOf, q, lst, tk, tickShut, trig, inShutdown, returned, regres, rr>>
 S3 == /\ stop = "trigger"
       /\ IF trig <= NLoops
          THEN /\ q' = [q EXCEPT ![trig] = Append(@, Exit)] /\ trig' = trig + 1 /\ stop' = stop
          ELSE /\ q' = (IF ReusePort THEN q ELSE [q EXCEPT ![Main] = Append(@, Exit)]) /\ trig' = trig /\ stop' = "wait"
-      /\ UNCHANGED <<ctx, backlog, made, lnOpen, cst, loopOf, lst, tk, tickShut, inShutdown, returned, nShut, regres>>
+      /\ UNCHANGED <<ctx, backlog, made, lnOpen, cst, loopOf, lst, tk, tickShut, inShutdown, returned, nShut, regres, rr>>
 S4 == /\ stop = "wait" /\ \A i \in AllLoops : lst[i] = "exited" /\ tk \in {"off", "exited"}
       /\ stop' = "closeloops"
-      /\ UNCHANGED <<ctx, backlog, made, lnOpen, cst, loopOf, q, lst, tk, tickShut, trig, inShutdown, returned, nShut, regres>>
+      /\ UNCHANGED <<ctx, backlog, made, lnOpen, cst, loopOf, q, lst, tk, tickShut, trig, inShutdown, returned, nShut, regres, rr>>
 S5 == /\ stop = "closeloops" /\ stop' = "flag" /\ lnOpen' = FALSE
-      /\ UNCHANGED <<ctx, backlog, made, cst, loopOf, q, lst, tk, tickShut, trig, inShutdown, returned, nShut, regres>>
+      /\ UNCHANGED <<ctx, backlog, made, cst, loopOf, q, lst, tk, tickShut, trig, inShutdown, returned, nShut, regres, rr>>
 S6 == /\ stop = "flag" /\ stop' = "done" /\ inShutdown' = TRUE
-      /\ UNCHANGED <<ctx, backlog, made, lnOpen, cst, loopOf, q, lst, tk, tickShut, trig, returned, nShut, regres>>
+      /\ UNCHANGED <<ctx, backlog, made, lnOpen, cst, loopOf, q, lst, tk, tickShut, trig, returned, nShut, regres, rr>>
 RunReturn == /\ stop = "done" /\ ~returned /\ returned' = TRUE
-             /\ UNCHANGED <<ctx, backlog, made, lnOpen, cst, loopOf, q, lst, tk, tickShut, stop, trig, inShutdown, nShut, regres>>
+             /\ UNCHANGED <<ctx, backlog, made, lnOpen, cst, loopOf, q, lst, tk, tickShut, stop, trig, inShutdown, nShut, regres, rr>>
 
 \* the ticker goroutine: OnTick, then wait for the timer or the context
 TickShutdown ==
     /\ tk = "sleep" /\ "tick" \in Sources /\ ~tickShut
     /\ tickShut' = TRUE /\ q' = [q EXCEPT ![TickLoop] = Append(@, Exit)]
-    /\ UNCHANGED <<ctx, backlog, made, lnOpen, cst, loopOf, lst, tk, stop, trig, inShutdown, returned, nShut, regres>>
+    /\ UNCHANGED <<ctx, backlog, made, lnOpen, cst, loopOf, lst, tk, stop, trig, inShutdown, returned, nShut, regres, rr>>
 TickerExit ==
     /\ tk = "sleep" /\ ctx /\ tk' = "exited"
-    /\ UNCHANGED <<ctx, backlog, made, lnOpen, cst, loopOf, q, lst, tickShut, stop, trig, inShutdown, returned, nShut, regres>>
+    /\ UNCHANGED <<ctx, backlog, made, lnOpen, cst, loopOf, q, lst, tickShut, stop, trig, inShutdown, returned, nShut, regres, rr>>
 
 \* Engine.Register(addr): Validate, then a worker dials, dups and enqueues the registration
 RegCall(r, i) ==
     /\ r \in Regs /\ i \in Loops /\ regres[r] = "none" /\ ~inShutdown /\ stop # "unborn"
     /\ regres' = [regres EXCEPT ![r] = "pending"]
     /\ cst' = [cst EXCEPT ![r] = "accepted"] /\ loopOf' = [loopOf EXCEPT ![r] = i]
+    /\ rr' \in Loops   \* Register goes through the balancer as well, from its caller's goroutine: with Round-Robin the cursor is shared without synchronisation (documented), so it may end up anywhere
     /\ UNCHANGED <<ctx, backlog, made, lnOpen, q, lst, tk, tickShut, stop, trig, inShutdown, returned, nShut>>
 RegEnqueue(r) ==
     /\ r \in Regs /\ cst[r] = "accepted"
     /\ IF lnOpen  \* the pollers are still open: Trigger succeeds
        THEN /\ cst' = [cst EXCEPT ![r] = "queued"] /\ q' = [q EXCEPT ![loopOf[r]] = Append(@, <<"regcb", r>>)] /\ regres' = regres
        ELSE /\ cst' = [cst EXCEPT ![r] = "orphan"] /\ q' = q /\ regres' = [regres EXCEPT ![r] = "delivered"]
-    /\ UNCHANGED <<ctx, backlog, made, lnOpen, loopOf, lst, tk, tickShut, stop, trig, inShutdown, returned, nShut>>
+    /\ UNCHANGED <<ctx, backlog, made, lnOpen, loopOf, lst, tk, tickShut, stop, trig, inShutdown, returned, nShut, rr>>
 
 Next ==
     \/ \E a \in Acceptors : Connect(a)
@@ -257,6 +263,10 @@ NothingRunsAfterReturn == Past4 => (\A i \in AllLoops : lst[i] = "exited") /\ tk
 BootShutdownStartsNothing == stop = "unborn" => returned /\ (\A c \in Conns : cst[c] = "none") /\ (\A i \in AllLoops : lst[i] = "unborn")
 \* the exit signal reaches the sub-loops before the main reactor
 MainLast == (~ReusePort /\ lst[Main] = "exited" /\ stop \in {"idle", "onshutdown"}) => ctx
+\* C15: with Round-Robin (and no Register interfering) the accepted connections are spread evenly: after k*N accepts every
+\* loop has received exactly k
+Assigned(i) == Cardinality({c \in AcceptedIds : cst[c] # "none" /\ loopOf[c] = i})
+RRBalanced == (LB = "rr" /\ ~ReusePort /\ MaxRegs = 0) => \A i, j \in Loops : Assigned(i) - Assigned(j) \in {-1, 0, 1} /\ (i < j => Assigned(i) >= Assigned(j))
 \* C07: the listeners are closed only once no loop can be told about them any more (they are polled by number)
 ListenersOutliveLoops == (~lnOpen /\ stop # "unborn") => \A i \in AllLoops : lst[i] = "exited"
 \* C19: Stop returns nil only when inShutdown is set
